@@ -54,11 +54,11 @@ theorem transmit_emit (env : Env) (now : Time) (c : Conn) (p : Packet) :
 
 /-- `send_packet` of a DATA fragment, decomposed: id from the substream's counter, payload through the substream's cipher at its
     position (not for an empty payload), then `transmit` -/
-theorem sendPacket_fragment_eq (env : Env) (hcomp : ∀ b, env.compress b = b) (now : Time) (sub : Nat) (c : Conn) (f : Frag)
+theorem sendPacket_fragment_eq (env : Env) (now : Time) (sub : Nat) (c : Conn) (f : Frag)
     (n pos : Nat) (hs : SRel c sub n pos) :
     ∃ (q : Packet) (c2 : Conn), c.sendPacket env now (dataPacket sub f) = c2.transmit env now q ∧
-      wireOf q = ⟨n, .data f.fragId, if f.data.isEmpty then f.data else (cipherOf c sub).enc pos f.data⟩ ∧
-      SRel c2 sub (seqNext n) (pos + (if f.data.isEmpty then f.data else (cipherOf c sub).enc pos f.data).length) ∧
+      wireOf q = ⟨n, .data f.fragId, if f.data.isEmpty then f.data else (wrap env (cipherOf c sub)).enc pos f.data⟩ ∧
+      SRel c2 sub (seqNext n) (pos + (if f.data.isEmpty then f.data else (wrap env (cipherOf c sub)).enc pos f.data).length) ∧
       cipherOf c2 sub = cipherOf c sub ∧ c2.linkUp = c.linkUp := by
   obtain ⟨hctr, sc, hsc, hpos⟩ := hs
   have hrel : hasReliable (FLAG_RELIABLE + FLAG_NEED_ACK + FLAG_HAS_SIZE) = true := by decide
@@ -73,7 +73,7 @@ theorem sendPacket_fragment_eq (env : Env) (hcomp : ∀ b, env.compress b = b) (
     | none => rw [h] at hsc; cases hsc
     | some x => exact (List.getElem?_eq_some_iff.mp h).1
   simp only [Conn.sendPacket, dataPacket, mkPacket, hack, Conn.assignIf, Bool.false_eq_true, if_false, Conn.assign, hrel, if_true, hctr,
-    hne, ne_eq, not_false_eq_true, Conn.encodeIf, Bool.not_false, and_true, Conn.encodePayload, hcomp]
+    hne, ne_eq, not_false_eq_true, Conn.encodeIf, Bool.not_false, and_true, Conn.encodePayload]
   by_cases hemp : f.data.isEmpty = true
   · simp only [hemp, Bool.not_true, Bool.false_eq_true, and_false, if_false, if_true]
     have hlen : f.data.length = 0 := by simpa using hemp
@@ -86,14 +86,14 @@ theorem sendPacket_fragment_eq (env : Env) (hcomp : ∀ b, env.compress b = b) (
       simp only [if_true]
       have hp := hpos hon
       refine ⟨_, _, rfl, ?_, ⟨get_set_self _ _ _ hlt, _, get_set_self _ _ _ hlt2, fun _ => ?_⟩, ?_, rfl⟩
-      · simp [wireOf, kindOf, cipherOf, hsc, hon, hp]
-      · simp only [cipherOf, hsc, hon, if_true, Option.map, Option.getD]
+      · simp [wireOf, kindOf, wrap, cipherOf, hsc, hon, hp]
+      · simp only [wrap, cipherOf, hsc, hon, if_true, Option.map, Option.getD]
         rw [rc4At_length, hp]
       · simp only [cipherOf, setAt, List.getElem?_set, hlt2, hsc, hon, if_true, Option.map]
     | false =>
       simp only [Bool.false_eq_true, if_false]
       refine ⟨_, _, rfl, ?_, ⟨get_set_self _ _ _ hlt, sc, hsc, fun h => by cases h⟩, by simp only [cipherOf, hon], rfl⟩
-      simp [wireOf, kindOf, cipherOf, hon]
+      simp [wireOf, kindOf, wrap, cipherOf, hon]
 
 theorem emitted_append (a b : List Out) :
     (a ++ b).filterMap (fun o => match o with | .emit _ p _ => some p | _ => none) =
@@ -123,7 +123,7 @@ theorem sendFrags_cons (env : Env) (now : Time) (sub : Nat) (f : Frag) (fs : Lis
     Conn.sendFrags env now sub (f :: fs) c = (c.sendPacket env now (dataPacket sub f)).bind (Conn.sendFrags env now sub fs) := rfl
 
 /-- with the link down nothing is emitted any more -/
-theorem sendFrags_linkdown (env : Env) (hcomp : ∀ b, env.compress b = b) (now : Time) (sub : Nat) :
+theorem sendFrags_linkdown (env : Env) (now : Time) (sub : Nat) :
     ∀ (fs : List Frag) (c : Conn) (n pos : Nat), SRel c sub n pos → c.linkUp = false →
       emitted (Conn.sendFrags env now sub fs c) = [] ∧ (Conn.sendFrags env now sub fs c).c.linkUp = false := by
   intro fs
@@ -131,7 +131,7 @@ theorem sendFrags_linkdown (env : Env) (hcomp : ∀ b, env.compress b = b) (now 
   | nil => intro c n pos _ hl; exact ⟨rfl, hl⟩
   | cons f fs ih =>
     intro c n pos hs hl
-    obtain ⟨q, c2, heq, _, hs2, _, hl2⟩ := sendPacket_fragment_eq env hcomp now sub c f n pos hs
+    obtain ⟨q, c2, heq, _, hs2, _, hl2⟩ := sendPacket_fragment_eq env now sub c f n pos hs
     rw [sendFrags_cons, heq]
     have ht := transmit_emit env now c2 q
     have hl2' : c2.linkUp = false := by rw [hl2]; exact hl
@@ -149,12 +149,12 @@ theorem sendFrags_linkdown (env : Env) (hcomp : ∀ b, env.compress b = b) (now 
 
 /-- **the fragment loop of `send` refines the L2 sender**: what is handed to the transport projects to a prefix of
     `wiresOf cipher nextId encPos frags`, and to all of it when no exception occurred and the link is still up -/
-theorem sendFrags_refines (env : Env) (hcomp : ∀ b, env.compress b = b) (now : Time) (sub : Nat) :
+theorem sendFrags_refines (env : Env) (now : Time) (sub : Nat) :
     ∀ (fs : List Frag) (c : Conn) (n pos : Nat), SRel c sub n pos →
-      (emitted (Conn.sendFrags env now sub fs c)).map wireOf <+: wiresOf (cipherOf c sub) n pos fs ∧
+      (emitted (Conn.sendFrags env now sub fs c)).map wireOf <+: wiresOf (wrap env (cipherOf c sub)) n pos fs ∧
       ((Conn.sendFrags env now sub fs c).err = none → (Conn.sendFrags env now sub fs c).c.linkUp = true →
-        (emitted (Conn.sendFrags env now sub fs c)).map wireOf = wiresOf (cipherOf c sub) n pos fs ∧
-        SRel (Conn.sendFrags env now sub fs c).c sub (iterSeq fs.length n) (pos + wiresLen (wiresOf (cipherOf c sub) n pos fs))) := by
+        (emitted (Conn.sendFrags env now sub fs c)).map wireOf = wiresOf (wrap env (cipherOf c sub)) n pos fs ∧
+        SRel (Conn.sendFrags env now sub fs c).c sub (iterSeq fs.length n) (pos + wiresLen (wiresOf (wrap env (cipherOf c sub)) n pos fs))) := by
   intro fs
   induction fs with
   | nil =>
@@ -162,7 +162,7 @@ theorem sendFrags_refines (env : Env) (hcomp : ∀ b, env.compress b = b) (now :
     exact ⟨by simp [Conn.sendFrags, emitted, R.ok, wiresOf], fun _ _ => ⟨by simp [Conn.sendFrags, emitted, R.ok, wiresOf], by simpa [iterSeq, wiresOf, wiresLen, Conn.sendFrags, R.ok] using hs⟩⟩
   | cons f fs ih =>
     intro c n pos hs
-    obtain ⟨q, c2, heq, hwire, hs2, hc2, hl2⟩ := sendPacket_fragment_eq env hcomp now sub c f n pos hs
+    obtain ⟨q, c2, heq, hwire, hs2, hc2, hl2⟩ := sendPacket_fragment_eq env now sub c f n pos hs
     rw [sendFrags_cons, heq]
     have ht := transmit_emit env now c2 q
     have hst := srel_transmit env now c2 q sub _ _ hs2
@@ -185,7 +185,7 @@ theorem sendFrags_refines (env : Env) (hcomp : ∀ b, env.compress b = b) (now :
           · rw [he] at h'; cases h'
           · exact h'
         have hlr : (c2.transmit env now q).c.linkUp = false := by rw [ht.2.2.2.2]; exact hld
-        have hd := sendFrags_linkdown env hcomp now sub fs _ _ _ hst.1 hlr
+        have hd := sendFrags_linkdown env now sub fs _ _ _ hst.1 hlr
         rw [h.1, hd.1]
         exact ⟨by simp, fun _ hup => by rw [hd.2] at hup; cases hup⟩
       · have hih := ih (c2.transmit env now q).c (seqNext n) _ hst.1
@@ -200,18 +200,18 @@ theorem sendFrags_refines (env : Env) (hcomp : ∀ b, env.compress b = b) (now :
 
 /-- **`send(data, substream)` refines `Sender.send`**: the emitted packets project to (a prefix of) exactly the wires the L2 sender
     appends to its log for this message — same ids, same fragment ids, same ciphertext at the same cipher positions -/
-theorem send_refines (env : Env) (hcomp : ∀ b, env.compress b = b) (now : Time) (c : Conn) (data : Bytes) (sub n pos : Nat)
+theorem send_refines (env : Env) (now : Time) (c : Conn) (data : Bytes) (sub n pos : Nat)
     (hs : SRel c sub n pos) :
-    (emitted (c.send env now data sub)).map wireOf <+: wiresOf (cipherOf c sub) n pos (split c.fragmentSize data) ∧
+    (emitted (c.send env now data sub)).map wireOf <+: wiresOf (wrap env (cipherOf c sub)) n pos (split c.fragmentSize data) ∧
     ((c.send env now data sub).err = none → (c.send env now data sub).c.linkUp = true →
-      (emitted (c.send env now data sub)).map wireOf = wiresOf (cipherOf c sub) n pos (split c.fragmentSize data) ∧
+      (emitted (c.send env now data sub)).map wireOf = wiresOf (wrap env (cipherOf c sub)) n pos (split c.fragmentSize data) ∧
       SRel (c.send env now data sub).c sub (iterSeq (split c.fragmentSize data).length n)
-        (pos + wiresLen (wiresOf (cipherOf c sub) n pos (split c.fragmentSize data)))) := by
+        (pos + wiresLen (wiresOf (wrap env (cipherOf c sub)) n pos (split c.fragmentSize data)))) := by
   unfold Conn.send
   split
   · exact ⟨by simp [emitted, R.fail], fun h => by simp [R.fail] at h⟩
   · split
     · exact ⟨by simp [emitted, R.fail], fun h => by simp [R.fail] at h⟩
-    · exact sendFrags_refines env hcomp now sub _ c n pos hs
+    · exact sendFrags_refines env now sub _ c n pos hs
 
 end Nx.L1
